@@ -142,12 +142,68 @@ def _reuse_case(case):
 		shutil.rmtree(tmp, ignore_errors=True)
 
 
+def _colliding_db(tmp):
+	"""a copy of the bundled database in which identifiers collide ACROSS tables (each is unique only within its own table): every taxon
+	that has genomes of its own gets the key of one of them, and genome / taxon NCBI ids are made to overlap"""
+	import shutil, sqlite3, glob
+	from gambit.db import ReferenceDatabase
+	db, _ = _db()
+	src = os.path.dirname(str(db.session.get_bind().url.database))
+	dst = os.path.join(tmp, 'db3')
+	os.makedirs(dst)
+	for f in glob.glob(os.path.join(src, '*.gdb')) + glob.glob(os.path.join(src, '*.gs')):
+		shutil.copy(f, dst)
+	con = sqlite3.connect(glob.glob(os.path.join(dst, '*.gdb'))[0])
+	rows = con.execute("SELECT a.taxon_id, MIN(g.id) FROM genome_annotations a JOIN genomes g ON g.id = a.genome_id WHERE a.taxon_id IS NOT NULL GROUP BY a.taxon_id").fetchall()
+	for tid, gid in rows:
+		key, = con.execute('SELECT "key" FROM genomes WHERE id = ?', (gid,)).fetchone()
+		con.execute('UPDATE taxa SET "key" = ?, ncbi_id = (SELECT ncbi_id FROM genomes WHERE id = ?) WHERE id = ?', (key, gid, tid))
+	con.commit()
+	con.close()
+	return ReferenceDatabase.load_from_dir(dst)
+
+
+def _collide_case(case):
+	"""all three formats on a database whose taxon keys coincide with genome keys"""
+	import tempfile, shutil
+	import numpy as np
+	from gambit.query import query, QueryParams
+	from gambit.results import CSVResultsExporter, JSONResultsExporter, ResultsArchiveWriter, ResultsArchiveReader
+	_, qs = _db()
+	tmp = tempfile.mkdtemp(prefix='c11c_')
+	try:
+		db3 = _colliding_db(tmp)
+		rnd = random.Random(case['seed'])
+		idx = [rnd.randrange(len(qs)) for _ in range(case['n'])]
+		res = query(db3, [qs[i] for i in idx], QueryParams(classify_strict=case.get('strict', False), report_closest=rnd.choice([1, 3, 10])))
+		problems = []
+		buf = io.StringIO()
+		JSONResultsExporter().export(buf, res)
+		problems += ['json: ' + x for x in _json_problems(json.loads(buf.getvalue()), res)[:3]]
+		buf = io.StringIO()
+		ResultsArchiveWriter().export(buf, res)
+		back = ResultsArchiveReader(db3.session).read(io.StringIO(buf.getvalue()))
+		if back != res:
+			problems.append('archive: results object differs')
+		for a, b in zip(back.items, res.items):
+			ca, cb = a.classifier_result, b.classifier_result
+			if type(ca.closest_match.genome) is not type(cb.closest_match.genome) or ca.closest_match.genome != cb.closest_match.genome:
+				problems.append(f'archive: closest genome read back as {ca.closest_match.genome!r}')
+			if a.report_taxon is not b.report_taxon and a.report_taxon != b.report_taxon:
+				problems.append(f'archive: reported taxon read back as {a.report_taxon!r}')
+		return {'ok': not problems, 'expected': 'exports equal the results on a database whose taxon keys coincide with genome keys', 'actual': problems[:4] or 'ok'}
+	finally:
+		shutil.rmtree(tmp, ignore_errors=True)
+
+
 def run_case(case):
 	import numpy as np
 	from gambit.results import CSVResultsExporter, JSONResultsExporter, ResultsArchiveWriter, ResultsArchiveReader
 	db, _ = _db()
 	if case['fmt'] == 'json-reuse':
 		return _reuse_case(case)
+	if case['fmt'] == 'collide':
+		return _collide_case(case)
 	res, changed = _results(case)
 	try:
 		fmt = case['fmt']
@@ -205,6 +261,8 @@ def bounded(tier, seed):
 		              'strict': rnd.random() < .4, 'rename': rnd.random() < .7, 'unreport': rnd.random() < .3, 'zero': rnd.random() < .5})
 	for order in ([1, 2], [2, 1], [1, 2, 1]):
 		cases.append({'fmt': 'json-reuse', 'seed': rnd.randrange(10 ** 6), 'n': 3, 'order': order})
+	for _ in range(3 if tier == 'quick' else 40):
+		cases.append({'fmt': 'collide', 'seed': rnd.randrange(10 ** 6), 'n': rnd.choice([3, 8]), 'strict': rnd.random() < .5})
 	# the carriage-return class separately (known finding)
 	cases.append({'fmt': 'csv', 'seed': 5, 'n': 2, 'rename': True, 'strings': ['bare\rcarriage return']})
 	n, failures, sample = 0, [], []
@@ -216,5 +274,5 @@ def bounded(tier, seed):
 		if not r.get('ok'):
 			cls = 'bare-CR' if c.get('strings') == ['bare\rcarriage return'] else c['fmt']
 			failures.append({'case': c, 'expected': r.get('expected'), 'actual': r.get('actual'), 'class': cls})
-	return {'tool': 'real exporters on results of a real query (hostile names, unreportable taxa, strict mode, missing files); CSV/JSON parsed back (JSON compared field by field incl. the lineage of every closest genome), archive read back; one JSON exporter object reused across databases that share primary keys',
+	return {'tool': 'real exporters on results of a real query (hostile names, unreportable taxa, strict mode, missing files); CSV/JSON parsed back (JSON compared field by field incl. the lineage of every closest genome), archive read back; one JSON exporter object reused across databases that share primary keys; a database whose taxon keys / NCBI ids coincide with genome keys / ids',
 	        'bound': f'{len(cases)} result sets of <= 5 items', 'cases': n, 'failures': failures[:4], 'samples': sample}
